@@ -41,3 +41,27 @@ impl<'a> Deps<'a> {
         ensures r == *self,
     { unimplemented!() }
 }
+
+// ---------- cross-contract queries (T5e): `querier.query(&request)` answers with the callee's query result for the current
+// committed state; the answer is a function of the querier and of (address, payload). The thin wrapper functions of the
+// repository's querier.rs files are EXTRACTED and verified against this single generic contract. ----------
+pub enum BankQuery { Balance { address: String, denom: String } }
+pub enum WasmQuery { Smart { contract_addr: String, msg: Binary } }
+pub enum QueryRequest { Bank(BankQuery), Wasm(WasmQuery) }
+pub ghost enum QueryView {
+    Smart { addr: Seq<char>, payload: Payload },
+    BankBalance { address: Seq<char>, denom: Seq<char> },
+}
+pub open spec fn request_view(r: QueryRequest) -> QueryView {
+    match r {
+        QueryRequest::Wasm(WasmQuery::Smart { contract_addr, msg }) => QueryView::Smart { addr: contract_addr@, payload: msg.p@ },
+        QueryRequest::Bank(BankQuery::Balance { address, denom }) => QueryView::BankBalance { address: address@, denom: denom@ },
+    }
+}
+pub uninterp spec fn query_answer<T>(q: QuerierWrapper, req: QueryView) -> T;
+impl QuerierWrapper {
+    #[verifier::external_body]
+    pub fn query<T>(&self, request: &QueryRequest) -> (r: StdResult<T>)
+        ensures r is Ok ==> r->Ok_0 == query_answer::<T>(*self, request_view(*request)),
+    { unimplemented!() }
+}
